@@ -7,10 +7,11 @@
 (***************************************************************************)
 EXTENDS Json, IOUtils, TLC, Defects, Yukawa, Regimes
 
-\* C18: model classes, incl. 1L/2L cancellation and new-physics scale near the muon mass
+\* C18: model classes, incl. 1L/2L cancellation, new-physics scale near the muon mass, and contributions far below the
+\* documented floor of the uncertainty (decoupled / aligned heavy Higgs bosons, lepton-phobic types at large tan(beta))
 C18Cases ==
    {[model |-> "mssm", cls |-> c] : c \in {"generic", "cancel", "heavy", "light"}} \cup
-   {[model |-> "thdm", cls |-> c] : c \in {"generic", "cancel", "heavy", "lightNP"}}
+   {[model |-> "thdm", cls |-> c] : c \in {"generic", "cancel", "heavy", "lightNP", "decoupled", "leptophobic"}}
 
 \* C06: all sign patterns of (mu, M1, M2, M3, Au_1..3, Ad_1..3, Ae_1..3)
 C06Cases == [1..13 -> {"+", "-"}]
@@ -18,7 +19,8 @@ C06Cases == [1..13 -> {"+", "-"}]
 \* C07: classes of base points (lightest SUSY mass >= 300 GeV)
 \* "degenerate": a random subset (>= 2) of |mu|, |M1|, |M2|, m_L(2,2), m_E(2,2) share one value (equal arguments of
 \* Iabc, Fa, Fb in the tan(beta) resummation and the one-loop approximations; masses nearly equal through D-terms)
-C07Cases == {"generic", "hightb", "compressed", "degenerate"}
+\* stopmix: heavy higgsinos, light strongly mixed stops with mu At > 0 (the sfermion 2L(a) term negative and dominant)
+C07Cases == {"generic", "hightb", "compressed", "degenerate", "stopmix"}
 
 \* C15: the full cross product of GM2CalcConfig options (480 vectors)
 C15Opts == [fmt : 0..4, loop : 0..2, tb : BOOLEAN, force : BOOLEAN, verbose : BOOLEAN, unc : BOOLEAN, running : BOOLEAN]
